@@ -1,6 +1,7 @@
-\* -simulate: programs of up to 8 source lines, up to 60 executed statements
-CONSTANTS Segs = {1, 2} StructSeg = 11 OffSet = {} OffAt = 0 Family = "flat" BodyLen = 0 MaxLen = 8 MaxSteps = 60
+\* -simulate: programs of up to 8 source lines over Alpha and SymAlpha, up to 60 executed statements
+CONSTANTS Segs = {1, 2} StructSeg = 11 OffSet = {} OffAt = 0 Family = "all" BodyLen = 0 MaxLen = 8 MaxSteps = 60
 INIT Init
 NEXT GenNext
 INVARIANTS ForwardIsAllowed ErrCountIsFaultyExecuted ChainMirrorsCounts ImageIsData KeptIffClean
+           ConstantsKeepTheirValue SkippedDefinesNothing VariableIsLastSetOrPopped
 CHECK_DEADLOCK FALSE
